@@ -74,7 +74,7 @@ Theorem aggregate_answer : forall st q keys aggs,
 Proof. exact agg_answer_l. Qed.
 Print Assumptions aggregate_answer.
 
-Theorem gql_same_plan : forall q, q_order q = nil -> q_skip q = None -> q_limit q = None -> gql_plan_of q = cypher_plan_of q.
+Theorem gql_same_plan : forall q items d, q_ret q = RPlain items d -> q_order q = nil -> q_skip q = None -> q_limit q = None -> gql_plan_of q = cypher_plan_of q.
 Proof. exact gql_plan_plain. Qed.
 Print Assumptions gql_same_plan.
 
